@@ -108,12 +108,18 @@ enum Case {
 
 fn case_json(c: &Case) -> Value {
     match c {
-        Case::RoundTrip { machine, hist_seed } => json!({"kind": "roundtrip", "machine": mach::enc(machine),
-            "machine_readable": short(&mach::describe(machine)), "states": machine.states.len(), "hist_seed": hist_seed}),
+        Case::RoundTrip { machine, hist_seed } => {
+            json!({"kind": "roundtrip", "machine": mach::enc(machine),
+            "machine_readable": short(&mach::describe(machine)), "states": machine.states.len(), "hist_seed": hist_seed})
+        }
         Case::Parse { input, what } => json!({"kind": "parse", "what": what, "input": input}),
         Case::ParseV1 { input, what } => json!({"kind": "parse_v1", "what": what, "input": input}),
-        Case::Bomb { size, fill, level } => json!({"kind": "bomb", "size": size, "fill": fill, "level": level}),
-        Case::Sweep { machine } => json!({"kind": "sweep", "machine": mach::enc(machine), "machine_readable": short(&mach::describe(machine))}),
+        Case::Bomb { size, fill, level } => {
+            json!({"kind": "bomb", "size": size, "fill": fill, "level": level})
+        }
+        Case::Sweep { machine } => {
+            json!({"kind": "sweep", "machine": mach::enc(machine), "machine_readable": short(&mach::describe(machine))})
+        }
     }
 }
 fn short(s: &str) -> String {
@@ -151,7 +157,9 @@ fn case_from(v: &Value) -> Option<Case> {
 
 fn encoded_len(m: &Machine) -> u64 {
     use bincode::Options;
-    bincode::DefaultOptions::new().serialized_size(m).unwrap_or(u64::MAX)
+    bincode::DefaultOptions::new()
+        .serialized_size(m)
+        .unwrap_or(u64::MAX)
 }
 
 /// machine with many states and incompressible parameters
@@ -160,21 +168,32 @@ fn big_machine(g: &mut Gen, n_states: usize) -> Machine {
     for _ in 0..n_states {
         let mut t = enum_map! { _ => vec![] };
         if g.chance(0.7) {
-            t[Event::NormalSent] = vec![Trans(g.usize(n_states), (g.f01() as f32).max(1e-6))];
+            t[Event::NormalSent] = vec![Trans(g.usize(n_states.min(16)), (g.f01() as f32).max(1e-6))];
         }
         if g.chance(0.3) {
-            t[Event::PaddingSent] = vec![Trans(g.usize(n_states), 1.0)];
+            t[Event::PaddingSent] = vec![Trans(g.usize(n_states.min(16)), 1.0)];
         }
         let mut s = State::new(t);
-        if g.chance(0.8) {
-            let rd = |g: &mut Gen| Dist::new(
-                DistType::Uniform {
-                    low: g.f01() * 1000.0,
-                    high: 1000.0 + g.f01() * 1e6,
-                },
-                g.f01(),
-                g.f01() * 1e9,
-            );
+        if g.chance(0.97) {
+            // parameters with random mantissas: next to incompressible
+            let rf = |g: &mut Gen| -> f64 {
+                // any positive finite double: 63 random bits
+                let mut b = g.u64() >> 1;
+                if (b >> 52) == 0x7ff {
+                    b &= !(1u64 << 52);
+                }
+                f64::from_bits(b)
+            };
+            let rd = |g: &mut Gen| {
+                Dist::new(
+                    DistType::Normal {
+                        mean: rf(g),
+                        stdev: rf(g),
+                    },
+                    rf(g),
+                    rf(g),
+                )
+            };
             s.action = Some(match g.below(3) {
                 0 => Action::SendPadding {
                     bypass: g.bool(),
@@ -198,26 +217,23 @@ fn big_machine(g: &mut Gen, n_states: usize) -> Machine {
         }
         states.push(s);
     }
+    // all transition targets are < 16 (see above), so any prefix of >= 16 states
+    // is a valid machine: take the longest prefix that fits the 1 MiB limit
+    let (a0, a1, a2, a3) = (g.u64(), g.f01(), g.u64(), g.f01());
+    let build = |n: usize| Machine::new(a0, a1, a2, a3, states[..n].to_vec());
+    let limit = (1u64 << 20) - 64;
     let mut n = n_states;
+    if let Ok(m) = build(n) {
+        let len = encoded_len(&m);
+        if len <= limit {
+            return m;
+        }
+        n = ((n as u64 * limit / len) as usize).max(16);
+    }
     loop {
-        let m = Machine::new(g.u64(), g.f01(), g.u64(), g.f01(), states[..n].to_vec());
-        // targets beyond n would be invalid after truncation: re-target
-        match m {
-            Ok(m) if encoded_len(&m) <= (1 << 20) - 64 => return m,
-            _ => {
-                n = (n * 3 / 4).max(1);
-                for s in states.iter_mut().take(n) {
-                    let tr = s.get_transitions();
-                    let mut t2 = enum_map! { _ => vec![] };
-                    for e in mach::ALL_EVENTS {
-                        t2[e] = tr[e].iter().map(|x| Trans(x.0 % n, x.1)).collect();
-                    }
-                    let mut s2 = State::new(t2);
-                    s2.action = s.action;
-                    s2.counter = s.counter;
-                    *s = s2;
-                }
-            }
+        match build(n) {
+            Ok(m) if encoded_len(&m) <= limit => return m,
+            _ => n = (n - (n / 200).max(1)).max(16),
         }
     }
 }
@@ -365,7 +381,10 @@ fn corrupt(g: &mut Gen, base: &str, other: &str, stats: &mut Stats) -> (String, 
                         let i = g.usize(payload.len());
                         match g.below(3) {
                             0 => payload[i] ^= 1 << g.below(8),
-                            1 => payload[i] = *g.pick(&[0u8, 1, 0xff, 0xfe, 0x7f, 0x80, 251, 252, 253]),
+                            1 => {
+                                payload[i] =
+                                    *g.pick(&[0u8, 1, 0xff, 0xfe, 0x7f, 0x80, 251, 252, 253])
+                            }
                             _ => {
                                 payload.truncate(i);
                                 if payload.is_empty() {
@@ -378,7 +397,10 @@ fn corrupt(g: &mut Gen, base: &str, other: &str, stats: &mut Stats) -> (String, 
                     let _ = e.write_all(&payload);
                     let z = e.finish().unwrap_or_default();
                     stats.fault("corrupt_payload_recompressed");
-                    return (format!("02{}", BASE64_STANDARD.encode(z)), "corrupt_payload_recompressed".into());
+                    return (
+                        format!("02{}", BASE64_STANDARD.encode(z)),
+                        "corrupt_payload_recompressed".into(),
+                    );
                 }
             }
             "corrupt_payload_failed"
@@ -414,7 +436,14 @@ fn v1_encode(g: &mut Gen, valid: bool) -> String {
     let mut p: Vec<u8> = vec![];
     p.extend(1u16.to_le_bytes());
     p.extend(g.below(1000).to_le_bytes());
-    p.extend((if valid { g.f01() } else { *g.pick(&[f64::NAN, -1.0, 2.0, 0.5]) }).to_le_bytes());
+    p.extend(
+        (if valid {
+            g.f01()
+        } else {
+            *g.pick(&[f64::NAN, -1.0, 2.0, 0.5])
+        })
+        .to_le_bytes(),
+    );
     p.extend(g.below(1000).to_le_bytes());
     p.extend(g.f01().to_le_bytes());
     p.push(g.below(2) as u8);
@@ -422,7 +451,11 @@ fn v1_encode(g: &mut Gen, valid: bool) -> String {
     for _ in 0..n {
         // duration, limit, timeout
         for _ in 0..3 {
-            let ty = if valid { *g.pick(&[0u16, 1, 1, 2, 6, 8]) } else { g.below(14) as u16 };
+            let ty = if valid {
+                *g.pick(&[0u16, 1, 1, 2, 6, 8])
+            } else {
+                g.below(14) as u16
+            };
             let a = g.f01() * 100.0;
             v1_dist(&mut p, ty, a, a + g.f01() * 100.0 + 0.1, 0.0, 0.0);
         }
@@ -472,9 +505,18 @@ fn drive(m: &Machine, calls: &[Call], seed: u64) -> Result<Vec<Vec<ActionRec>>, 
 }
 
 impl C11 {
-    fn check_parsed(&self, r: Result<Result<Machine, maybenot::Error>, String>, input_desc: &str, v: &mut Vec<(String, String)>, stats: &mut Stats) {
+    fn check_parsed(
+        &self,
+        r: Result<Result<Machine, maybenot::Error>, String>,
+        input_desc: &str,
+        v: &mut Vec<(String, String)>,
+        stats: &mut Stats,
+    ) {
         match r {
-            Err(p) => v.push((panic_class(&p), format!("parser panicked on {input_desc}: {p}"))),
+            Err(p) => v.push((
+                panic_class(&p),
+                format!("parser panicked on {input_desc}: {p}"),
+            )),
             Ok(Err(_)) => stats.inc("rejected"),
             Ok(Ok(m)) => {
                 stats.inc("accepted");
@@ -482,7 +524,9 @@ impl C11 {
                     Ok(Ok(())) => {}
                     Ok(Err(e)) => v.push((
                         "accepted-invalid-machine".into(),
-                        format!("parser accepted {input_desc} but the machine fails validation: {e}"),
+                        format!(
+                            "parser accepted {input_desc} but the machine fails validation: {e}"
+                        ),
                     )),
                     Err(p) => v.push((panic_class(&p), format!("validate panicked: {p}"))),
                 }
@@ -498,7 +542,10 @@ impl C11 {
                 let s1 = match catch_sut(|| machine.serialize()) {
                     Ok(s) => s,
                     Err(p) => {
-                        v.push((panic_class(&p), format!("serialize panicked on a machine within the size limit: {p}")));
+                        v.push((
+                            panic_class(&p),
+                            format!("serialize panicked on a machine within the size limit: {p}"),
+                        ));
                         return v;
                     }
                 };
@@ -506,11 +553,21 @@ impl C11 {
                 let (parsed, peak) = measure_peak(|| catch_sut(|| Machine::from_str(&s1)));
                 stats.max("max_peak_bytes_valid_input", peak as u64);
                 if peak > mem_bound(s1.len()) {
-                    v.push(("memory-bound".into(), format!("from_str used {peak} bytes on a valid {}-char string (bound {})", s1.len(), mem_bound(s1.len()))));
+                    v.push((
+                        "memory-bound".into(),
+                        format!(
+                            "from_str used {peak} bytes on a valid {}-char string (bound {})",
+                            s1.len(),
+                            mem_bound(s1.len())
+                        ),
+                    ));
                 }
                 let m2 = match parsed {
                     Err(p) => {
-                        v.push((panic_class(&p), format!("from_str panicked on its own output: {p}")));
+                        v.push((
+                            panic_class(&p),
+                            format!("from_str panicked on its own output: {p}"),
+                        ));
                         return v;
                     }
                     Ok(Err(e)) => {
@@ -529,7 +586,14 @@ impl C11 {
                 };
                 let s2 = m2.serialize();
                 if s1 != s2 {
-                    v.push(("roundtrip-not-identical".into(), format!("re-serialized string differs (lengths {} vs {})", s1.len(), s2.len())));
+                    v.push((
+                        "roundtrip-not-identical".into(),
+                        format!(
+                            "re-serialized string differs (lengths {} vs {})",
+                            s1.len(),
+                            s2.len()
+                        ),
+                    ));
                     return v;
                 }
                 if machine.name() != m2.name() {
@@ -541,9 +605,21 @@ impl C11 {
                     let mut local = Stats::default();
                     let hc = HistCfg::swarm(&mut g, 120);
                     let rng = RngSpec::Free(*hist_seed);
-                    let calls = fwsim::gen_history(&mut g, &[machine.clone()], 0.5, 0.5, 0, &rng, &hc, &mut local);
+                    let calls = fwsim::gen_history(
+                        &mut g,
+                        &[machine.clone()],
+                        0.5,
+                        0.5,
+                        0,
+                        &rng,
+                        &hc,
+                        &mut local,
+                    );
                     stats.fault("restart_from_strings");
-                    match (drive(machine, &calls, *hist_seed), drive(&m2, &calls, *hist_seed)) {
+                    match (
+                        drive(machine, &calls, *hist_seed),
+                        drive(&m2, &calls, *hist_seed),
+                    ) {
                         (Ok(a), Ok(b)) => {
                             if let Some(k) = (0..a.len()).find(|k| a[*k] != b[*k]) {
                                 v.push((
@@ -562,14 +638,31 @@ impl C11 {
                 let (r, peak) = measure_peak(|| catch_sut(|| Machine::from_str(input)));
                 stats.max("max_peak_bytes_hostile_input", peak as u64);
                 if peak > mem_bound(input.len()) {
-                    v.push(("memory-bound".into(), format!("from_str used {peak} bytes on a {}-char input ({what}), bound {}", input.len(), mem_bound(input.len()))));
+                    v.push((
+                        "memory-bound".into(),
+                        format!(
+                            "from_str used {peak} bytes on a {}-char input ({what}), bound {}",
+                            input.len(),
+                            mem_bound(input.len())
+                        ),
+                    ));
                 }
-                self.check_parsed(r, &format!("a {what} input of {} chars", input.len()), &mut v, stats);
+                self.check_parsed(
+                    r,
+                    &format!("a {what} input of {} chars", input.len()),
+                    &mut v,
+                    stats,
+                );
             }
             Case::ParseV1 { input, what } => {
                 stats.inc("v1_inputs");
                 let r = catch_sut(|| maybenot::parsing::parse_v1_machine(input));
-                self.check_parsed(r, &format!("a v1 {what} input of {} chars", input.len()), &mut v, stats);
+                self.check_parsed(
+                    r,
+                    &format!("a v1 {what} input of {} chars", input.len()),
+                    &mut v,
+                    stats,
+                );
             }
             Case::Bomb { size, fill, level } => {
                 stats.inc("bombs");
@@ -597,7 +690,12 @@ impl C11 {
                         ),
                     ));
                 }
-                self.check_parsed(r, &format!("a zlib bomb ({size} bytes from {} chars)", input.len()), &mut v, stats);
+                self.check_parsed(
+                    r,
+                    &format!("a zlib bomb ({size} bytes from {} chars)", input.len()),
+                    &mut v,
+                    stats,
+                );
             }
             Case::Sweep { machine } => {
                 let s = machine.serialize();
@@ -618,7 +716,12 @@ impl C11 {
                         b[i] ^= 1 << bit;
                         let inp = String::from_utf8_lossy(&b).to_string();
                         let r = catch_sut(|| Machine::from_str(&inp));
-                        self.check_parsed(r, &format!("bit {bit} of char {i} flipped"), &mut v, stats);
+                        self.check_parsed(
+                            r,
+                            &format!("bit {bit} of char {i} flipped"),
+                            &mut v,
+                            stats,
+                        );
                         stats.fault("bit_flip_every_position");
                     }
                     if v.len() > 3 {
@@ -650,7 +753,11 @@ impl C11 {
             75..=86 => {
                 let valid = g.chance(0.4);
                 let mut input = v1_encode(g, valid);
-                let mut what = if valid { "well-formed".to_string() } else { "malformed-fields".to_string() };
+                let mut what = if valid {
+                    "well-formed".to_string()
+                } else {
+                    "malformed-fields".to_string()
+                };
                 if g.chance(0.5) {
                     // byte-level faults on the hex string
                     let mut b = input.into_bytes();
@@ -675,7 +782,9 @@ impl C11 {
                             b = hex::encode(e.finish().unwrap_or_default()).into_bytes();
                         }
                         _ => {
-                            b = (0..g.usize(64)).map(|_| *g.pick(b"0123456789abcdef")).collect();
+                            b = (0..g.usize(64))
+                                .map(|_| *g.pick(b"0123456789abcdef"))
+                                .collect();
                         }
                     }
                     input = String::from_utf8_lossy(&b).to_string();
@@ -730,6 +839,7 @@ impl Engine for C11 {
             ],
             stubbed_components: vec!["corruption injector", "harness-side v1 encoder", "counting global allocator"],
             totality: true,
+            cpu_limit_s: 30,
             exhaustive: false,
         }
     }
@@ -811,14 +921,20 @@ impl Engine for C11 {
                                 machine.max_blocking_frac,
                                 states,
                             ) {
-                                out.push(Case::RoundTrip { machine: m, hist_seed });
+                                out.push(Case::RoundTrip {
+                                    machine: m,
+                                    hist_seed,
+                                });
                             }
                         }
                     }
                 }
                 if n <= 8 {
                     for m in mach::shrink_machine(&machine) {
-                        out.push(Case::RoundTrip { machine: m, hist_seed });
+                        out.push(Case::RoundTrip {
+                            machine: m,
+                            hist_seed,
+                        });
                     }
                 }
             }
@@ -835,7 +951,11 @@ impl Engine for C11 {
             }
             Case::Bomb { size, fill, level } => {
                 if size > (2 << 20) {
-                    out.push(Case::Bomb { size: size / 2, fill, level });
+                    out.push(Case::Bomb {
+                        size: size / 2,
+                        fill,
+                        level,
+                    });
                 }
             }
             _ => {}
